@@ -475,6 +475,12 @@ pub fn c08(o: &Opts) -> i32 {
         let mut tr = Rng::new(o.seed).fork(tag("c08-terminal-roots"));
         let mut roots = gen::roots_before_terminal(&mut tr, if q { 200_000 } else { 2_000_000 }, true, if q { 220 } else { 2500 });
         roots.extend(gen::roots_before_terminal(&mut tr, if q { 30_000 } else { 300_000 }, false, if q { 40 } else { 400 }));
+        // stalemates of the side that is ahead: the side that is behind has a quiet saving move deep in the tree
+        let frozen = gen::frozen_stronger_side_stalemates(&mut tr, if q { 2_000_000 } else { 12_000_000 });
+        ctx.count("stalemates_of_the_materially_stronger_side_sampled", frozen.len() as u64);
+        let fr = gen::roots_before(frozen, &mut tr, if q { 300 } else { 3000 });
+        ctx.count("roots_up_to_four_plies_before_a_stalemate_of_the_stronger_side", fr.len() as u64);
+        roots.extend(fr);
         let mut n = 0;
         for (p, dist) in roots {
             let k = p.legal_moves().len();
